@@ -3,11 +3,23 @@ LEVEL = "proof"
 RULE = ("DirectSolverGiveCustomLU / TakeCustomLU on random problems 5x4 .. 9x16 (quick) / 17x32 (thorough), 1 and 4 assembly threads, "
         "right-hand sides with dynamic range 2^-40..2^40; the exact residual of the returned solution with the model operator must be "
         "<= 2^-20*(|A||x|+|b|) at every node; through the friend hook the assembled CSR matrices are read: no column twice in a row "
-        "and every entry equal to the operator's (allowance 2^-40*S); both strategies return the same solution.  "
+        "and every entry equal to the operator's (allowance 2^-40*S); for the take strategy every CSR slot (column and value, storage order) "
+        "equals the code-level assembly model GMGModel/DirectCode.lean run with the offset tables re-extracted from the header (exact "
+        "rationals + IEEE double bit comparison); both strategies return the same solution.  "
         "Distinct by (nr, nt, bc, geometry, profile)")
 
 
+import os, subprocess, json
+ROOT = os.path.dirname(os.path.dirname(os.path.dirname(os.path.abspath(__file__))))
+
+
 def run(ctx):
+    # (T) the offset tables of the operator headers -> lean/Generated/Stencils.lean (input of GMGModel/DirectCode.lean and of the theorems about it)
+    r = subprocess.run(["python3", os.path.join(ROOT, "tools", "stencil_extract.py")], capture_output=True, text=True)
+    if r.returncode != 0:
+        ctx.broken.append(("translator stencil_extract.py: the Stencil tables of the headers no longer have the extractable form", (r.stdout + r.stderr)[-2000:]))
+    else:
+        ctx.cov["stencil_tables"] = json.loads(r.stdout.strip().splitlines()[-1])
     ctx.prove()
     h = ctx.build_harness("h_ops")
     ctx.pipe([h, "direct", "24" if ctx.tier == "quick" else "300", "9", "16"], "direct", label="direct-solves")
